@@ -16,6 +16,12 @@ def name_str(i):
         return "v%d" % (i - 500)       # 500 + k and 600 + k differ in ASCII case only
     if 600 <= i < 700:
         return "V%d" % (i - 600)
+    if 700 <= i < 800:
+        return "w%d" % (i - 700)       # 700 + k, 800 + k, 900 + k differ in surrounding whitespace only
+    if 800 <= i < 900:
+        return "w%d " % (i - 800)
+    if 900 <= i < 1000:
+        return " w%d" % (i - 900)
     return "p%d" % i
 
 
@@ -28,6 +34,12 @@ def name_id(s):
         return 500 + int(s[1:])
     if s.startswith("V"):
         return 600 + int(s[1:])
+    if s.startswith(" w"):
+        return 900 + int(s[2:])
+    if s.startswith("w") and s.endswith(" "):
+        return 800 + int(s[1:-1])
+    if s.startswith("w"):
+        return 700 + int(s[1:])
     return int(s[1:])
 
 
